@@ -168,3 +168,66 @@ def enumerate_finite(d, limit=10000):
     if d["start"] not in useful:
         return []
     return sorted(words) if dfs(d["start"], "") else None
+
+
+def tokenizer_difference(cur, ref, max_states=200000):
+    """cur / ref: lists of (class name, dfa, precedence).  The tokenizer they define maps a string to the
+    highest-precedence class that matches it completely (none if no class does); a lexer that always takes
+    the longest prefix with a winner is determined by that map.  Returns None when both maps are equal,
+    else (string, winner in cur, winner in ref) for a shortest distinguishing string."""
+    def start(cl):
+        return tuple(d["start"] for _, d, _ in cl)
+
+    def winner(cl, T):
+        best = None
+        for (name, d, prec), s in zip(cl, T):
+            if s is not None and d["states"][s]["accept"]:
+                if best is None or prec > best[1]:
+                    best = (name, prec)
+        return best[0] if best else None
+
+    def cuts(cl, T, pts):
+        for (name, d, prec), s in zip(cl, T):
+            if s is None:
+                continue
+            for lo, hi, t in d["states"][s]["edges"]:
+                pts.add(lo)
+                pts.add(hi + 1)
+
+    def step_all(cl, T, cp):
+        out = []
+        for (name, d, prec), s in zip(cl, T):
+            if s is None:
+                out.append(None)
+                continue
+            n = None
+            for lo, hi, t in d["states"][s]["edges"]:
+                if lo <= cp <= hi:
+                    n = t
+                    break
+            out.append(n)
+        return tuple(out)
+
+    s0 = (start(cur), start(ref))
+    seen = {s0: None}
+    q = deque([s0])
+    while q:
+        st = q.popleft()
+        wc, wr = winner(cur, st[0]), winner(ref, st[1])
+        if wc != wr:
+            return build(seen, st), wc, wr
+        pts = set()
+        cuts(cur, st[0], pts)
+        cuts(ref, st[1], pts)
+        pts = sorted(pts)
+        for i in range(len(pts) - 1):
+            cp = pts[i]
+            n = (step_all(cur, st[0], cp), step_all(ref, st[1], cp))
+            if all(x is None for x in n[0]) and all(x is None for x in n[1]):
+                continue
+            if n not in seen:
+                seen[n] = (st, cp)
+                q.append(n)
+                if len(seen) > max_states:
+                    raise RuntimeError("tokenizer product too large")
+    return None
